@@ -2,6 +2,8 @@ import Np.Proofs.MapCoef
 import Np.Model.Maps
 import Np.Proofs.Gather
 import Np.Proofs.ShapeFns
+import Np.Proofs.IndexFns
+import Np.Proofs.SelectFns
 /-! C09 — shape functions and indexing move whole polynomial elements like numpy: property theorems, for *every*
 index map (hence every shape, axis, index or section argument numpy accepts) -/
 namespace Np.Props.C09
@@ -179,5 +181,90 @@ theorem moveaxis_reads {shape out idx : List Nat} {src dst : Nat} (h : moveaxisF
 example : transposeF [2, 3] [1, 0] = some ([3, 2], [0, 3, 1, 4, 2, 5]) := by decide
 example : concatF [[2, 2], [1, 2]] 0 = some ([3, 2], [(0, 0), (0, 1), (0, 2), (0, 3), (1, 0), (1, 1)]) := by decide
 end shapefns
+
+/-! ### basic indexing, the split family, diag, atleast_nd, broadcast (`Np/Model/IndexFns.lean`) and where / choose /
+full / hstack / vstack / dstack (`Np/Model/SelectFns.lean`) -/
+section indexfns
+open Np.Shape Np.ShapeFns Np.IndexFns Np.SelectFns
+
+/-- Python's `slice.indices`: every position a slice visits lies inside the axis -/
+theorem slice_in_range {n : Nat} {a b : Option Int} {st s e st' : Int}
+    (h : sliceIndices n a b st = some (s, e, st')) {k : Nat} (hk : k < sliceLen s e st') :
+    0 ≤ s + k * st' ∧ s + k * st' < n := sliceIndices_range h hk
+
+/-- `a[items]` (ints, slices with any step, `newaxis`, one ellipsis): one entry per element of the result, every
+entry a position of the operand -/
+theorem basic_index_in_range {shape : List Nat} {items : List Item} {out idx : List Nat}
+    (h : basicIndexF shape items = some (out, idx)) : idx.length = size out ∧ ∀ k ∈ idx, k < size shape :=
+  ⟨basicIndexF_length h, basicIndexF_lt h⟩
+
+/-- … and the result's multi-index `j` reads the operand's multi-index that numpy's rules (`Reads`: int → the
+normalised index, slice → `start + j·step`, newaxis → nothing, leftover axes whole) prescribe -/
+theorem basic_index_reads {shape : List Nat} {items : List Item} {out idx : List Nat}
+    (hne : ∀ it ∈ items, it.isEllipsis = false) (h : basicIndexF shape items = some (out, idx))
+    {j : List Nat} (hj : Valid out j) :
+    ∃ x, Reads shape items out j x ∧ Valid shape x ∧ idx[ravel out j]? = some (ravel shape x) :=
+  basicIndexF_spec hne h hj
+
+/-- `numpy.split`: piece `p` reads the operand shifted by its cut point along the axis, and all pieces together hold
+every element of the operand exactly once -/
+theorem split_reads {shape : List Nat} {axis : Nat} {sections : List Nat} {ps : List (List Nat × List Nat)}
+    (h : splitF shape axis sections = some ps) :
+    (ps.map fun q => q.2).flatten.Perm (List.range (size shape)) ∧
+    ∀ p, p ≤ sections.length → ∃ out idx, ps[p]? = some (out, idx) ∧
+      out = shape.set axis (cut (shape.getD axis 0) sections (p + 1) - cut (shape.getD axis 0) sections p) ∧
+      idx.length = size out ∧ (∀ k ∈ idx, k < size shape) ∧
+      ∀ j, Valid out j →
+        idx[ravel out j]? = some (ravel shape (j.set axis (j.getD axis 0 + cut (shape.getD axis 0) sections p))) ∧
+        Valid shape (j.set axis (j.getD axis 0 + cut (shape.getD axis 0) sections p)) :=
+  ⟨splitF_perm h, fun _ hp => splitF_spec h hp⟩
+
+/-- `numpy.atleast_1d/2d/3d` keep every flat position; `numpy.broadcast_to` reads through the broadcast index -/
+theorem atleast_keeps_positions {d : Nat} {shape out idx : List Nat} (h : atleastF d shape = some (out, idx))
+    {j : List Nat} (hj : Valid out j) : idx[ravel out j]? = some (ravel out j) := atleastF_spec h hj
+theorem broadcast_to_reads {shape target out idx : List Nat} (h : broadcastToF shape target = some (out, idx)) :
+    out = target ∧ idx = (List.range (size target)).map (bindex shape target) := broadcastToF_bindex h
+
+/-- `numpy.diag` of a vector: entry `(r, c)` is the vector's element on the `k`-th diagonal and the zero fill elsewhere -/
+theorem diag_of_vector (n : Nat) (k : Int) : ∃ idx, diagF [n] k = some ([n + k.natAbs, n + k.natAbs], idx) ∧
+    idx.length = size [n + k.natAbs, n + k.natAbs] ∧ (∀ x, some x ∈ idx → x < n) ∧
+    ∀ r c, r < n + k.natAbs → c < n + k.natAbs →
+      idx[ravel [n + k.natAbs, n + k.natAbs] [r, c]]? =
+        some (if (c : Int) - r = k then some (r - (-k).toNat) else none) ∧
+      ((c : Int) - r = k → r - (-k).toNat < n) := diagF_vec n k
+
+/-- `numpy.where(cond, x, y)`: the three shapes broadcast; output multi-index `j` reads `x` where the broadcast
+condition holds and `y` elsewhere, each at its own broadcast position -/
+theorem where_reads {cond : List Bool} {sc sx sy out : List Nat} {idx : List (Nat × Nat)}
+    (h : whereF cond sc sx sy = some (out, idx)) {j : List Nat} (hj : Valid out j) :
+    idx[ravel out j]? = some (if cond.getD (ravel sc (bmulti sc j)) false then (0, ravel sx (bmulti sx j))
+      else (1, ravel sy (bmulti sy j))) ∧
+    Valid sc (bmulti sc j) ∧ ravel sc (bmulti sc j) < cond.length ∧
+    Valid sx (bmulti sx j) ∧ Valid sy (bmulti sy j) := whereF_spec h hj
+
+/-- `numpy.choose(sel, choices)`: output multi-index `j` reads the choice the broadcast selector names -/
+theorem choose_reads {sel ss : List Nat} {shapes : List (List Nat)} {out : List Nat} {idx : List (Nat × Nat)}
+    (h : chooseF sel ss shapes = some (out, idx)) {j : List Nat} (hj : Valid out j) :
+    ∃ c, c = sel.getD (ravel ss (bmulti ss j)) 0 ∧ c < shapes.length ∧
+      idx[ravel out j]? = some (c, ravel (shapes.getD c []) (bmulti (shapes.getD c []) j)) ∧
+      Valid ss (bmulti ss j) ∧ ravel ss (bmulti ss j) < sel.length ∧
+      Valid (shapes.getD c []) (bmulti (shapes.getD c []) j) := chooseF_spec h hj
+
+/-- `numpy.full(shape, value)`: every position reads the value at its broadcast position -/
+theorem full_reads {shape sv out idx : List Nat} (h : fullF shape sv = some (out, idx))
+    (hle : sv.length ≤ shape.length) {i : Nat} (hi : i < size out) : idx[i]? = some (bindex sv shape i) :=
+  fullF_getElem?_of_le h hle hi
+
+/-- `numpy.vstack` is `concatenate` of the `atleast_2d` operands along axis 0 (likewise hstack / dstack): output
+multi-index `j` reads operand `o`, inside that operand's own shape -/
+theorem vstack_reads {shapes : List (List Nat)} {out : List Nat} {idx : List (Nat × Nat)}
+    (h : vstackF shapes = some (out, idx)) {j : List Nat} (hj : Valid out j) :
+    ∃ o r, idx[ravel out j]? = some (o, ravel (shapes.getD o []) (demote2d (shapes.getD o []) (j.set 0 r))) ∧
+      o < shapes.length ∧ Valid (shapes.getD o []) (demote2d (shapes.getD o []) (j.set 0 r)) ∧
+      Valid (atleast2d (shapes.getD o [])) (j.set 0 r) ∧
+      j.getD 0 0 = ((shapes.take o).map fun s => (atleast2d s).getD 0 0).sum + r := vstackF_spec h hj
+theorem hstack_is_concatenate (shapes : List (List Nat)) :
+    hstackF shapes = concatF (shapes.map atleast1d) (hstackAxis shapes) := hstackF_eq shapes
+end indexfns
 
 end Np.Props.C09
